@@ -424,9 +424,18 @@ def analyze(ctx, want):
             ob("C08.b", "literal:always-ok", False, "returns %s" % S.vstr(r)[:80], fn.loc())
             continue
         clo = unwrap_ok(r)
-        is_dot = [(c, o) for c, o in p.conds if c[0] == "binop" and c[1] == "Eq" and "'.'" in S.vstr(c)]
+        # the path on which the literal is a verbatim '.', however the test is spelled (==, match on the char, match on a pair)
+        from .common import char_tests, cond_variant
+        is_dot = [(t_, ch_, eq_) for t_, ch_, eq_ in char_tests(p.conds) if ch_ == "."]
         verb = [(c, o) for c, o in p.conds if "kind" in S.vstr(c)]
-        quirk = bool(is_dot) and is_dot[-1][1] is True and bool(verb) and verb[-1][1] is True
+        verb_yes = False
+        for c, o in verb:
+            cv = cond_variant(c, o)
+            if cv is not None:
+                verb_yes = cv[1] == "Verbatim"
+            elif isinstance(o, bool):
+                verb_yes = o is True
+        quirk = bool(is_dot) and is_dot[-1][2] is True and bool(verb) and verb_yes
         if clo[0] != "closure":
             ob("C08.b", "literal:is-a-closure", False, "returns %s" % S.vstr(r)[:80], fn.loc())
             continue
